@@ -684,6 +684,36 @@ func ruleC02Case(c *Ctx) {
 	if !sawThen || !sawElse || !sawNull {
 		why = append(why, fmt.Sprintf("paths found: then=%v else=%v null=%v", sawThen, sawElse, sawNull))
 	}
+	// the condition is read from the row (a bare boolean column is a legal condition) and a NULL condition selects nothing
+	nAssert := 0
+	allInstrs(f, func(b *ssa.BasicBlock, in ssa.Instruction) {
+		ta, ok := in.(*ssa.TypeAssert)
+		if !ok || shortType(ta.AssertedType) != "bool" {
+			return
+		}
+		xt := NewTB().Of(ta.X)
+		if !strings.Contains(xt.String(), ".Cond") {
+			return
+		}
+		nAssert++
+		x0 := ext0(xt)
+		if _, isUnwrap := callArgs(x0, "ValueOf"); x0 == nil || !isUnwrap {
+			why = append(why, "the WHEN condition is asserted to bool without being unwrapped (ValueOf): a condition that is a column reference fails instead of reading the row")
+			return
+		}
+		guarded := false
+		for _, fc := range relFacts(factsAt(b)) {
+			if fc.r == relNE && isNilConst(fc.y) && fc.x == ta.X {
+				guarded = true
+			}
+		}
+		if !guarded {
+			why = append(why, "a NULL condition reaches the bool assertion (an error) instead of being treated as not true")
+		}
+	})
+	if nAssert == 0 {
+		why = append(why, "no bool assertion of the WHEN condition found")
+	}
 	// independent of the unrolling bound: every return instruction answers with an evaluation's results or with an error
 	exprFn := c.P.Func(modPath, "Expr")
 	allInstrs(f, func(_ *ssa.BasicBlock, in ssa.Instruction) {
